@@ -27,6 +27,17 @@ def runOpTrans (op : String) (args : List String) : String :=
         match r with
         | none => "FAIL replay-does-not-end-in-a-single-item"
         | some x => if agrees t x then "ok" else "FAIL replayed-tree-differs"
+  | "P.C10.line", [pos, t, line] => withTree t fun t =>
+      -- the written line: the token sequence (words, or tags on request) separated by single ASCII blanks, then " ||| "
+      match decS line with
+      | none => bad
+      | some l =>
+        let ls := String.ofList l
+        match ls.splitOn " ||| " with
+        | sent :: _ =>
+          let want := t.terminals.map fun x => String.ofList (if pos == "t" then x.fields.label else x.fields.word.getD [])
+          if sent.splitOn " " == want then "ok" else "FAIL written-sentence-is-not-the-token-sequence"
+        | [] => "FAIL written-sentence-is-not-the-token-sequence"
   | "P.C10.sentence", [t, sent] => withTree t fun t =>
       let want := ",".intercalate (t.terminals.map fun l => encOS l.fields.word ++ "/" ++ encS l.fields.label)
       if sent == want then "ok" else "FAIL sentence"
